@@ -522,6 +522,16 @@ func (t *Task) load(
 	})
 	first, last := blocks[0], blocks[len(blocks)-1]
 	if len(first.Header.Parent) == 32 && !bytes.Equal(localHash, first.Header.Parent) {
+		// The blocks may have come out of the client's cache and
+		// predate an earlier reorg. It is a reorg only if the
+		// recorded block is no longer the one the source has.
+		h, err := t.src.Hash(ctx, url, start-1)
+		if err != nil {
+			return nil, fmt.Errorf("loading blocks: checking hash of %d: %w", start-1, err)
+		}
+		if len(localHash) == 32 && bytes.Equal(h, localHash) {
+			return nil, fmt.Errorf("loading blocks: %d does not extend %d: stale blocks", first.Num(), start-1)
+		}
 		return nil, ErrReorg
 	}
 	// Partitions are fetched (and cached) independently.
